@@ -5,7 +5,7 @@ sys.path.insert(0, os.path.dirname(__file__))
 import props as P
 from common import TRUSTED_BASE
 
-V = '/verif'
+V = os.path.dirname(os.path.abspath(__file__)) if os.path.basename(os.path.dirname(os.path.abspath(__file__))) != 'lib' else os.path.dirname(os.path.dirname(os.path.abspath(__file__)))
 ids = [json.loads(l)['id'] for l in open(os.path.join(V, 'properties.jsonl'))]
 hooks = subprocess.run(['git', '-C', '/repo', 'log', '--format=%H %s'], capture_output=True, text=True).stdout.strip().split('\n')
 hook_commits = [l.split(' ', 1)[0] for l in hooks if l.split(' ', 1)[1].startswith('verif:')]
